@@ -220,36 +220,45 @@ def failure_result(prog: Program, rep, x: ExcFlow) -> None:
             continue
         seen_classes.update(k for k in INTERNAL if any(x.is_subclass(k, hc) for hc in hcs))
         seen += 1
-        last = h.body[-1] if h.body else None
-        if not isinstance(last, ast.Return) or last.value is None:
+        # every way the handler can end: its last statement, through trailing if / else (one return per case)
+        def ends(block):
+            if not block:
+                return [None]
+            l_ = block[-1]
+            if isinstance(l_, ast.If) and l_.orelse:
+                return ends(l_.body) + ends(l_.orelse)
+            return [l_]
+        lasts = ends(h.body)
+        if any(not isinstance(l_, ast.Return) or l_.value is None for l_ in lasts):
             rep.fail("failure-result-shape", cs.qualname, short(h), "VIOLATED: a failure handler does not end by returning a result", cs.loc(h))
             continue
-        val = last.value
-        owner, of = cs, ff
-        # inline a nested helper such as fail_result()
-        if isinstance(val, ast.Call) and isinstance(val.func, ast.Name) and val.func.id in cs.nested and not val.args:
-            nf = cs.nested[val.func.id]
-            rs = returns_of(nf)
-            if len(rs) != 1:
-                raise AnalysisError("fail_result helper has several returns")
-            of = facts_for(nf)
-            val = of.resolved(rs[0], rs[0].value)
-            owner = nf
-        else:
-            val = ff.resolved(last, val)
-        b = control_result_args(prog, val)
-        if not b:
-            rep.fail("failure-result-shape", cs.qualname, short(last), "VIOLATED: failure handler does not return a StepControlResult(...)", cs.loc(last))
-            continue
-        rep.check(isinstance(b["iterate"], ast.Name) and b["iterate"].id == it_param, "failure-result-same-iterate", cs.qualname, short(last),
-                  f"the failure result carries the unchanged parameter iterate (found `{U(b['iterate'])}`)", cs.loc(last))
-        rep.check(isinstance(b["accepted"], ast.Constant) and b["accepted"].value is False, "failure-result-not-accepted", cs.qualname, short(last),
-                  f"the failure result is not accepted (found `{U(b['accepted'])}`)", cs.loc(last))
-        lam = b["lamb"]
-        ok_l = isinstance(lam, ast.Call) and isinstance(lam.func, ast.Attribute) and lam.func.attr == "update_stepsize_after_fail" \
-            and U(lam.func.value) == "self" and len(lam.args) == 1 and _is_inverse_of(lam.args[0], dt_param)
-        rep.check(ok_l, "failure-result-lambda", cs.qualname, short(last),
-                  f"the failure result's lambda is update_stepsize_after_fail(1/{dt_param}) of the failed trial (found `{U(lam)}`)", cs.loc(last))
+        for last in lasts:
+            val = last.value
+            owner, of = cs, ff
+            # inline a nested helper such as fail_result()
+            if isinstance(val, ast.Call) and isinstance(val.func, ast.Name) and val.func.id in cs.nested and not val.args:
+                nf = cs.nested[val.func.id]
+                rs = returns_of(nf)
+                if len(rs) != 1:
+                    raise AnalysisError("fail_result helper has several returns")
+                of = facts_for(nf)
+                val = of.resolved(rs[0], rs[0].value)
+                owner = nf
+            else:
+                val = ff.resolved(last, val)
+            b = control_result_args(prog, val)
+            if not b:
+                rep.fail("failure-result-shape", cs.qualname, short(last), "VIOLATED: failure handler does not return a StepControlResult(...)", cs.loc(last))
+                continue
+            rep.check(isinstance(b["iterate"], ast.Name) and b["iterate"].id == it_param, "failure-result-same-iterate", cs.qualname, short(last),
+                      f"the failure result carries the unchanged parameter iterate (found `{U(b['iterate'])}`)", cs.loc(last))
+            rep.check(isinstance(b["accepted"], ast.Constant) and b["accepted"].value is False, "failure-result-not-accepted", cs.qualname, short(last),
+                      f"the failure result is not accepted (found `{U(b['accepted'])}`)", cs.loc(last))
+            lam = b["lamb"]
+            ok_l = isinstance(lam, ast.Call) and isinstance(lam.func, ast.Attribute) and lam.func.attr == "update_stepsize_after_fail" \
+                and U(lam.func.value) == "self" and len(lam.args) == 1 and _is_inverse_of(lam.args[0], dt_param)
+            rep.check(ok_l, "failure-result-lambda", cs.qualname, short(last),
+                      f"the failure result's lambda is update_stepsize_after_fail(1/{dt_param}) of the failed trial (found `{U(lam)}`)", cs.loc(last))
     rep.pin("internal failure classes with a handler in compute_step (one handler may serve several)", len(seen_classes), 2)
     sc = prog.cls("pygradflow.step.step_control.StepController")
     for m in prog.dispatch(sc, "update_stepsize_after_fail"):
